@@ -94,7 +94,10 @@ End Dec.
    as f64; the harness runs it through Record and Trace in every ownership form and reports three
    flags checked on the Rust side only (all forms agree bit for bit; forward derivative = reverse
    derivative for every variable wherever every local partial derivative is finite; numbers = the
-   plain f64 computation).  No float is ever compared with the model: the model validates the case
+   plain f64 computation, +0.0 and -0.0 being the same number, compared on the pole-free domain:
+   every node that is not at or downstream of a division by (+/-)0 or a negative power of (+/-)0
+   in the plain run -- the only places where the sign of a zero is observable, and outside "the
+   functions' domains" of the property; harness/src/c04/prog.rs in_pole_free_domain).  No float is ever compared with the model: the model validates the case
    (any pair of integers decodes as a number) and answers the expected flags (1 1 1). *)
 Definition float_flags : sx := SL [SZ 1%Z; SZ 1%Z; SZ 1%Z].
 Definition c04_float_case (body outs : sx) : sx :=
